@@ -38,6 +38,9 @@ class IntV:
     def __repr__(self):
         return "%d_%s%d" % (self.v, "i" if self.signed else "u", self.bits)
 
+    def __deepcopy__(self, memo):
+        return self
+
 
 class BoolV(IntV):
     def __init__(self, v):
@@ -233,6 +236,12 @@ class Frame:
         self.depth = depth
         self.locals = {}
 
+    def __deepcopy__(self, memo):
+        f = Frame(self.body, self.depth)
+        memo[id(self)] = f
+        f.locals = _copy.deepcopy(self.locals, memo)
+        return f
+
     def cell(self, i):
         c = self.locals.get(i)
         if c is None:
@@ -290,6 +299,20 @@ class Interp:
             raise MirError("find_fn %s::%s::%s: %d candidates" % (module, type_name, method, len(out)))
         return out[0]
 
+    def find_sibling_fn(self, module, type_name, method, sibling="set_neg"):
+        """an associated function that does not mention its type in its
+        signature (e.g. a recoder): found in the impl block of `sibling`"""
+        sib = self.find_fn(module, type_name, sibling)[0]
+        prefix = sib.rsplit("::", 1)[0]
+        nm = prefix + "::" + method
+        if nm not in self.mir.items:
+            # other impl blocks of the same module
+            cands = [n for n in self.mir.by_last.get(method, []) if n.startswith(module + "::<impl")]
+            if len(cands) != 1:
+                raise MirError("find_sibling_fn %s::%s: %d candidates" % (module, method, len(cands)))
+            nm = cands[0]
+        return (nm, 0)
+
     def find_trait_fn(self, module, method, param_types):
         want = [norm_type(t) for t in param_types]
         out = []
@@ -324,7 +347,12 @@ class Interp:
             raise MirError("arity mismatch calling %s" % body.name)
         for (loc, ty), a in zip(body.params, args):
             fr.cell(loc).val = a
-        bb = 0
+        return self._exec(fr, 0)
+
+    def _exec(self, fr, bb):
+        """run frame `fr` from basic block `bb` to its return (resumable: algorithm
+        mode forks the top-level frame at symbolic branches)"""
+        body = fr.body
         while True:
             self.steps += 1
             if self.steps > self.MAX_STEPS:
@@ -391,7 +419,8 @@ class Interp:
             elif k == "index":
                 iv = fr.cell(pr[1]).val
                 if not isinstance(iv, IntV) or isinstance(iv, MaskV):
-                    iv = self.index_ext(fr, Ref(cell, path), iv)
+                    cell, path = self.index_ext(fr, Ref(cell, path), iv)
+                    continue
                 path = path + (iv.v,)
             elif k == "cindex":
                 path = path + (pr[1],)
